@@ -141,9 +141,21 @@ def band_failure(c):
             if d > 1.0 / c['u'] + 0.03:
                 return '%s(upsample=%d) on a low-contrast Fourier-shifted disk (radius %s) in frame %s: refined %s is %.4f px from the true centre %s (bound %.4f)' % (
                     name, c['u'], c['radius'], c['shape'], ref[0, 0].tolist(), d, tuple(round(float(t), 4) for t in true), 1.0 / c['u'] + 0.03)
+        # the stand-alone kernels: the documented flag value upsample=True (factor 20) and the given factor, from a grid of start positions
+        # in one call with fewer crop buffers than start positions (several blocks)
+        starts = [(st[0] + dy, st[1] + dx) for dy in (-2, 0, 2) for dx in (-2, 0, 2)]
+        starts = [q for q in starts if cs <= q[0] <= c['shape'][0] - cs and cs <= q[1] <= c['shape'][1] - cs]
+        for ups in (True, c['u']):
+            uf = 20 if ups is True else ups
+            for name, fn in (('process_frame_fast', cl.run_fast), ('process_frame_full', cl.run_full)):
+                o = fn(p2, frame2[0], starts, bc=2, upsample=ups)
+                ds = np.abs(o[1].astype(np.float64) - np.array(true)).max(axis=1)
+                k = int(np.argmax(ds))
+                if not ds[k] <= 1.0 / uf + 0.03:
+                    return '%s(upsample=%s, %d start positions in 2 buffers) on a low-contrast Fourier-shifted disk (radius %s) in frame %s: start %s gives refined %s, %.4f px from the true centre %s (bound %.4f)' % (
+                        name, ups, len(starts), c['radius'], c['shape'], list(starts[k]), o[1][k].tolist(), float(ds[k]), tuple(round(float(t), 4) for t in true), 1.0 / uf + 0.03)
         # the low-level full-frame routine with the centres output in the narrowest integer dtype that holds the coordinates
         # (coordinate x upsampling factor does not fit that dtype: no intermediate may be computed in it)
-        import corrlib as cl
         for dtc in (np.int8, np.uint8, np.int16, np.int64):
             if max(c['shape']) + cs > np.iinfo(dtc).max:
                 continue
@@ -157,6 +169,8 @@ def band_failure(c):
 
 
 def replay(body):
+    if 'frame_ints' in body.get('args', {}):
+        return cl.replay_case(body, 'C02')          # a failing input recorded by the model correspondence (cl.model_check)
     a = body['args']
     fail = linear_failure(a['case']) if body.get('call') == 'linear' else band_failure(a['case'])
     print(json.dumps({'failure_now': fail}, indent=1))
